@@ -33,8 +33,8 @@ def pygsti_label_from_statement(gate):
             else:
                 args.append(param)
         else:
-            # quantum argument: a qubit
-            args.append(param.alias_index)
+            # quantum argument: a qubit (resolved through any map aliases)
+            args.append(param.resolve_qubit()[1])
     return Label(args)
 
 
